@@ -1,6 +1,7 @@
 package main
 
 import (
+	"encoding/json"
 	"fmt"
 	"os"
 	"path/filepath"
@@ -377,6 +378,85 @@ func oracleC03(r *runner, o *Obs) []Violation {
 	}
 	if l := leftoversIn(o.Tree); len(l) > 0 {
 		add("resume-leftover", fmt.Sprintf("after the resumed run leftovers remain: %v", l))
+	}
+	return out
+}
+
+// ---------------------------------------------------------------- C18
+
+func init() { extraOracles = append(extraOracles, oracleC18) }
+
+func applyJoinMod(p, mod string) string {
+	switch {
+	case mod == "basename":
+		return filepath.Base(p)
+	case strings.HasPrefix(mod, "%"):
+		return "../" + strings.TrimSuffix(p, mod[1:])
+	case mod == "":
+		return "../" + p
+	}
+	return p
+}
+
+func oracleC18(r *runner, o *Obs) []Violation {
+	if !r.wants("c18") || o.Outcome != "" {
+		return nil
+	}
+	out := []Violation{}
+	add := func(class, detail string) { out = append(out, Violation{Prop: "C18", Class: class, Detail: detail}) }
+	ps := r.spec.proc("j")
+	members := r.ref.Emit["j.members"]
+	started, _ := startedEnded(o.Events)
+	if started["j[]"] != 1 {
+		add("task-count", fmt.Sprintf("the joining process ran %d tasks for one sub-stream", started["j[]"]))
+	}
+	exp := []string{}
+	for _, m := range members {
+		exp = append(exp, applyJoinMod(m, ps.JoinMod))
+	}
+	want := strings.Join(exp, ps.JoinSep)
+	got := []string{}
+	for _, n := range o.Notes {
+		if strings.HasPrefix(n, "joined:") {
+			got = append(got, n[len("joined:"):])
+		}
+	}
+	if len(got) == 1 && ps.JoinMod != "" {
+		// the documentation is silent on whether a relocating modifier keeps the "../" prefix
+		// inside a join: compare order and names only
+		norm := func(x string) string {
+			parts := strings.Split(x, ps.JoinSep)
+			for i := range parts {
+				parts[i] = strings.TrimPrefix(parts[i], "../")
+			}
+			return strings.Join(parts, ps.JoinSep)
+		}
+		got[0], want = norm(got[0]), norm(want)
+	}
+	if len(got) == 1 && got[0] != want {
+		add("join-argument", fmt.Sprintf("the placeholder was replaced by %q, the sub-stream is %q", got[0], want))
+	}
+	// audit: every member is recorded as upstream
+	if a, ok := o.Tree["joined.txt.audit.json"]; ok {
+		var rec struct {
+			Upstream map[string]json.RawMessage
+		}
+		if err := json.Unmarshal([]byte(a), &rec); err != nil {
+			add("audit-invalid", "joined.txt.audit.json is not valid JSON")
+		} else {
+			for _, m := range members {
+				if _, ok := rec.Upstream[m]; !ok {
+					add("audit-upstream", "member "+m+" of the sub-stream is not recorded as upstream of the joined output")
+				}
+			}
+			for k := range rec.Upstream {
+				if !has(members, k) {
+					add("audit-upstream", "unexpected upstream entry "+k+" in the joined output's audit record")
+				}
+			}
+		}
+	} else if has(o.Notes, "COMPLETED") {
+		add("audit-missing", "joined.txt has no audit file")
 	}
 	return out
 }
